@@ -290,6 +290,16 @@ def _nonuniform(rng):
     lo = float(rng.uniform(-50, 50)) * w
     if rng.random() < 0.3 and r >= 1.5 and w >= 1.0:
         lo = float(rng.choice([1e5, 1e6, -3e5]))         # edge values much larger than the irregularity of the widths (w * (r - 1) >= 0.5)
+    far = rng.random()
+    if far < 0.25 and w >= 0.1:
+        # edge values so large that the irregularity of the widths (>= 1 % of a width) is tiny next to them, yet far above their rounding
+        lo = float(rng.choice([1e9, 1e10, -4e9, 2.0 ** 33]))
+        kind += '@far'
+    elif far < 0.4:
+        # narrow bins far from zero, all edges exactly representable: widths of a few 2^-20 around 1000
+        lo = 1024.0
+        widths = widths / w * 2.0 ** -20
+        kind += '@narrow'
     edges = lo + np.concatenate([[0.0], np.cumsum(widths)])
     return kind, edges
 
@@ -341,6 +351,19 @@ def _validation(t, case, rng):
             t.check(False, 'non_uniform_edges_accepted', dict(kind=kind, how=['init', 'assignment', 'MIAReverse'][how], edges=edges.tolist()[:8], widths=np.diff(edges).tolist()[:8]))
         except (ValueError, TypeError):
             t.check(True, '')
+    # edges that are not finite numbers: not equally spaced by any reading, and the bin index of a sample is then undefined
+    inf, nan = float('inf'), float('nan')
+    for bad in ([0, 1, inf], [-inf, 0, 1], [-inf, 0, inf], [0, 1, 2, inf], [nan, 0, 1], [0, 1, nan], [0, nan, 2], [-inf, inf]):
+        how = int(rng.integers(3))
+        form = int(rng.integers(3))
+        arg = bad if form == 0 else np.array(bad, dtype=['float64', 'float32'][form - 1])
+        t.count('nonuniform_lists')
+        t.count('non_finite_edge_lists')
+        try:
+            construct(arg, how)
+            t.check(False, 'non_uniform_edges_accepted', dict(kind='not finite', how=['init', 'assignment', 'MIAReverse'][how], edges=[str(v) for v in bad], given_as=['list', 'float64 array', 'float32 array'][form]))
+        except (ValueError, TypeError):
+            t.check(True, '')
     # decreasing / repeated edges
     for bad in ([0, 1, 1, 2], [0, 2, 1, 3], [3, 2, 1], [0.0, 1.0, 0.5]):
         t.count('nonuniform_lists')
@@ -368,6 +391,18 @@ def _validation(t, case, rng):
             t.check(np.array_equal(np.asarray(o.bin_edges, dtype=float), np.array(good, dtype=float)), 'held_edges_differ_from_configured', lambda: dict(configured=good, dtype=dt))
         except (ValueError, TypeError) as e:
             t.check(False, 'uniform_edges_refused', dict(kind='narrow dtype array', edges=good, dtype=dt, error=str(e)))
+    # equally spaced edges far from zero and single-precision edge arrays are legitimate (rounded to their own type)
+    far_ok = [('far linspace', np.linspace(1e9, 1e9 + 128, 129)), ('far rounded', np.linspace(1e6, 1e6 + 1, 11)), ('float32 linspace', np.linspace(0, 1, 129).astype('float32')),
+              ('float32 offset', np.linspace(100, 101, 11, dtype='float32')), ('far negative', np.linspace(-4e9 - 64, -4e9, 65)), ('narrow', 1024.0 + 2.0 ** -20 * np.arange(17)),
+              ('float32 arange', (np.arange(41, dtype='float32') * np.float32(0.1))), ('decimal list', [round(0.1 * i, 10) for i in range(30)])]
+    for kind, edges in far_ok:
+        how = int(rng.integers(3))
+        t.count('uniform_lists')
+        try:
+            construct(edges, how)
+            t.check(True, '')
+        except (ValueError, TypeError) as e:
+            t.check(False, 'uniform_edges_refused', dict(kind=kind, edges=[float(v) for v in list(edges)[:6]], n=len(edges), error=str(e)))
     for _ in range(40):
         kind, edges = _uniform(rng)
         how = int(rng.integers(3))
